@@ -172,3 +172,53 @@ def run(ctx):
                       detail=None if (s.dst == "POLL" and quiet) else "dst %s quiet %s" % (s.dst, quiet))
             if tr.of("STEP") or tr.of("RELALL"):
                 ck.ob("C10-R6", fn, "POLL:TimedOut:no-step", False)
+
+    # ---- R7 below the Driver trait: `Busy` (= "nothing more to read, go back to waiting") is said only when the
+    # kernel itself answered EAGAIN to a read().  (a) RealDriver builds Next::Busy only on the Err(Sys(EAGAIN)) arm of
+    # the reader's result; (b) the readers return an Err only if it is the read() call's own error (never a made-up one)
+    adapters = {"next_keyboard": "<remapping_loop::RealDriver as remapping_loop::Driver>::next_keyboard",
+                "next_tablet": "<remapping_loop::RealDriver as remapping_loop::Driver>::next_tablet"}
+    readers = set()
+    nbusy = 0
+    for nm, path in sorted(adapters.items()):
+        b = ctx.body(path)
+        for i, name, t in b.calls():
+            if mir.method_name(name) == "next" and ("Reader" in name):
+                readers.add(name)
+        for p in mir.walk_function(b):
+            if p.outcome[0] != "return":
+                continue
+            ret = p.outcome[1]
+            busy = [s_ for s_ in mir.subterms(ret) if isinstance(s_, tuple) and len(s_) > 2 and s_[0] == "agg" and s_[1].endswith("remapping_loop::Next") and s_[2] == "Busy"]
+            if not busy:
+                continue
+            nbusy += 1
+            gs = [(e.a, e.b) for e in p.events if e.kind == "guard"]
+            from_reader = [a for a, v in gs if isinstance(a, tuple) and a[0] == "variantof" and v == "Err" and isinstance(a[1], tuple) and a[1][0] == "call"
+                           and mir.method_name(a[1][1]) == "next" and "Reader" in a[1][1]]
+            eagain = [v for a, v in gs if isinstance(v, str) and v == "EAGAIN"]
+            sys_ = [v for a, v in gs if isinstance(v, str) and v == "Sys"]
+            ok = bool(from_reader) and bool(eagain) and bool(sys_)
+            ck.ob("C10-R7", path, "Busy-only-on-the-reader's-Err(Sys(EAGAIN))", ok,
+                  detail=None if ok else "Next::Busy returned under guards %s" % [(show(a)[:50], v) for a, v in gs][:5])
+    ck.floor("C10-R7", "Busy-returning-paths", nbusy, 2)
+    ck.ob("C10-R7", "-", "readers-behind-the-adapters", len(readers) == 2, detail=str(sorted(readers)))
+    from .c20 import _is_err_of
+    for rd in sorted(readers):
+        b = ctx.body(rd)
+        segs = [mir.walk_function(b)] + [mir.Walker(b).walk(h, start_is_header=True) for h in sorted(b.loops())]
+        nerr = 0
+        for paths in segs:
+            for p in paths:
+                if p.outcome[0] != "return" or any(e.kind == "loop" for e in p.events):
+                    continue   # (returns from inside a summarised loop are analysed on that loop's own paths)
+                ret = p.outcome[1]
+                is_err = isinstance(ret, tuple) and ret and (ret[0] == "from_residual" or (ret[0] == "agg" and len(ret) > 2 and ret[2] == "Err"))
+                if not is_err:
+                    continue
+                nerr += 1
+                reads = [e.c for e in p.events if e.kind == "call" and e.a == "nix::unistd::read"]
+                ok = bool(reads) and _is_err_of(ret, reads[-1])
+                ck.ob("C10-R7", rd, "every-Err-the-reader-returns-is-the-read()-call's-own-error", ok, site=p.events[-1].span if p.events else None,
+                      detail=None if ok else "the reader returns %s, which does not derive from the result of read()" % show(ret)[:100])
+        ck.floor("C10-R7", "reader-error-returns:" + rd.rsplit("::", 2)[-2], nerr, 1)
